@@ -139,6 +139,55 @@ Section Walk.
   Qed.
 End Walk.
 
+Section KWalk.
+  Context {X : Type}.
+  Variable key : X -> nat.
+  Variable children : X -> list X.
+  Variable N : nat.
+  Hypothesis out_of_range : forall x, N <= key x -> children x = [].
+
+  Lemma kwalk_terminates : forall fuel vis x,
+    unvis N vis < fuel -> exists v, kwalk key children fuel vis x = Some v /\ incl vis v.
+  Proof.
+    induction fuel as [|f IH]; intros vis x Hf; [lia|].
+    simpl. destruct (mem (key x) vis) eqn:Em.
+    - exists vis. split; [reflexivity|apply incl_refl].
+    - assert (Hfold : forall cs v0, incl (key x :: vis) v0 -> (cs = [] \/ unvis N v0 < f) ->
+               exists v, fold_left (fun acc c => match acc with None => None | Some v => kwalk key children f v c end) cs (Some v0) = Some v
+                         /\ incl v0 v).
+      { induction cs as [|c cs IHcs]; intros v0 Hi Hb.
+        - exists v0. split; [reflexivity|apply incl_refl].
+        - destruct Hb as [Hb|Hb]; [discriminate|]. simpl.
+          destruct (IH v0 c Hb) as [v1 [Hw Hi1]]. rewrite Hw.
+          destruct (IHcs v1 (incl_tran Hi Hi1)) as [v2 [Hw2 Hi2]].
+          + right. assert (Hle := unvis_incl N v0 v1 Hi1). lia.
+          + exists v2. split; [exact Hw2|exact (incl_tran Hi1 Hi2)]. }
+      destruct (Nat.lt_ge_cases (key x) N) as [Hlt|Hge].
+      + destruct (Hfold (children x) (key x :: vis) (incl_refl _)) as [v [Hw Hi]].
+        * right. assert (H := unvis_cons_lt N (key x) vis Hlt Em). lia.
+        * exists v. split; [exact Hw|]. intros y Hy. apply Hi. right. exact Hy.
+      + rewrite (out_of_range x Hge). simpl. exists (key x :: vis). split; [reflexivity|].
+        intros y Hy. right. exact Hy.
+  Qed.
+
+  Lemma kwalk_list_terminates : forall xs fuel vis,
+    unvis N vis < fuel -> exists v, kwalk_list key children fuel vis xs = Some v /\ incl vis v.
+  Proof.
+    induction xs as [|x r IH]; intros fuel vis Hf; simpl.
+    - exists vis. split; [reflexivity|apply incl_refl].
+    - destruct (kwalk_terminates fuel vis x Hf) as [v [Hw Hi]]. rewrite Hw.
+      destruct (IH fuel v) as [v2 [Hw2 Hi2]].
+      + assert (H := unvis_incl N vis v Hi). lia.
+      + exists v2. split; [exact Hw2|exact (incl_tran Hi Hi2)].
+  Qed.
+End KWalk.
+
+Lemma inherit_children_oor g x : List.length g <= fst x -> inherit_children g x = [].
+Proof.
+  intro H. unfold inherit_children, matched, node_fields, get.
+  rewrite (proj2 (nth_error_None g (fst x)) H). reflexivity.
+Qed.
+
 Lemma validate_children_oor g n : List.length g <= n -> validate_children g n = [].
 Proof. intro H. unfold validate_children, get. rewrite (proj2 (nth_error_None g n) H). reflexivity. Qed.
 
@@ -173,6 +222,20 @@ Lemma prepare_endpoint_total pg vis n :
 Proof.
   unfold prepare_endpoint.
   exact (walk_terminates (prepare_children pg) (List.length pg) (prepare_children_oor pg) _ vis n (unvis_any_lt _ vis)).
+Qed.
+
+Lemma inherit_unit_total g seen x :
+  exists v, inherit_unit g (S (List.length g)) seen x = Some v /\ incl seen v.
+Proof.
+  unfold inherit_unit.
+  exact (kwalk_terminates fst (inherit_children g) (List.length g) (inherit_children_oor g) _ seen x (unvis_any_lt _ seen)).
+Qed.
+
+Lemma inherit_attr_total g a p : exists v, inherit_attr g (S (List.length g)) a p = Some v.
+Proof.
+  unfold inherit_attr.
+  destruct (kwalk_list_terminates fst (inherit_children g) (List.length g) (inherit_children_oor g) (inherit_units g a p) _ [] (unvis_any_lt _ []))
+    as [v [Hw _]]. exists v. exact Hw.
 Qed.
 
 Lemma required_errors_total g roots : exists ns, required_errors g roots = Some ns.
@@ -340,11 +403,25 @@ Proof.
     exact (eresponse_ok _ er (flat_map_nil _ _ Herr er Her) r Hin).
 Qed.
 
+Lemma cred_eqb_eq a b : cred_eqb a b = true -> a = b.
+Proof. destruct a, b; simpl; intro H; try discriminate; try reflexivity. apply Nat.eqb_eq in H. subst. reflexivity. Qed.
+
+Lemma creds_ok d s m : validate_creds d s m = [] ->
+  forall q n c, In q (effective_reqs d s m) -> In n (q_schemes q) -> In c (needed d n) -> resolves (RCred m c).
+Proof.
+  unfold validate_creds. intros H q n c Hq Hn Hc. apply app_nil_both in H. destruct H as [H _].
+  assert (H1 := flat_map_nil _ _ H q Hq). cbv beta in H1. assert (H2 := flat_map_nil _ _ H1 n Hn). cbv beta in H2.
+  assert (Hf := map_filter_nil _ _ _ H2 c Hc). apply negb_false_iff in Hf.
+  unfold has_cred in Hf. apply existsb_exists in Hf. destruct Hf as [x [Hx He]]. apply cred_eqb_eq in He. subst x. exact Hx.
+Qed.
+
 Lemma method_ok d s m : validate_method d s m = [] ->
   (forall q n, In q (effective_reqs d s m) -> In n (q_scopes q) -> resolves (RScope d q n)) /\
-  (forall v vs, r_fixed (m_result m) = Some v -> r_views (m_result m) = Some vs -> resolves (RView m v)).
+  (forall v vs, r_fixed (m_result m) = Some v -> r_views (m_result m) = Some vs -> resolves (RView m v)) /\
+  (forall q n c, In q (effective_reqs d s m) -> In n (q_schemes q) -> In c (needed d n) -> resolves (RCred m c)).
 Proof.
-  unfold validate_method. intro H. apply app_nil_both in H. destruct H as [Hs Hv]. split.
+  unfold validate_method. intro H. apply app_nil_both in H. destruct H as [Hc H].
+  apply app_nil_both in H. destruct H as [Hs Hv]. split; [|split; [|exact (creds_ok d s m Hc)]].
   - intros q n Hq Hn. assert (Hq' := flat_map_nil _ _ Hs q Hq). simpl in Hq'.
     assert (Hf := map_filter_nil _ _ _ Hq' n Hn). apply negb_false_iff in Hf.
     unfold scope_known in Hf. apply existsb_exists in Hf. destruct Hf as [sn [Hsn Hf]].
@@ -398,11 +475,14 @@ Proof.
     apply in_flat_map in Hin. destruct Hin as [m [Hm Hin]].
     assert (Hdm := flat_map_nil _ _ Hsm m Hm). simpl in Hdm. apply app_nil_both in Hdm. destruct Hdm as [Hmq Hmh].
     assert (Hvm' := flat_map_nil _ _ Hvm m Hm). simpl in Hvm'. apply app_nil_both in Hvm'. destruct Hvm' as [Hmm Hmhv].
-    destruct (method_ok d s m Hmm) as [Hscope Hview].
+    destruct (method_ok d s m Hmm) as [Hscope [Hview Hcred]].
     apply in_app_or in Hin. destruct Hin as [Hin|Hin].
     { apply in_flat_map in Hin. destruct Hin as [q [Hq Hin]]. exact (req_schemes_ok d q (flat_map_nil _ _ Hmq q Hq) r Hin). }
     apply in_app_or in Hin. destruct Hin as [Hin|Hin].
     { apply in_flat_map in Hin. destruct Hin as [q [Hq Hin]]. apply in_map_iff in Hin. destruct Hin as [n [<- Hn]]. exact (Hscope q n Hq Hn). }
+    apply in_app_or in Hin. destruct Hin as [Hin|Hin].
+    { apply in_flat_map in Hin. destruct Hin as [q [Hq Hin]]. apply in_flat_map in Hin. destruct Hin as [n [Hn Hin]].
+      apply in_map_iff in Hin. destruct Hin as [c [<- Hc]]. exact (Hcred q n c Hq Hn Hc). }
     apply in_app_or in Hin. destruct Hin as [Hin|Hin].
     { destruct (r_fixed (m_result m)) as [v|] eqn:Ef; [|contradiction].
       destruct (r_views (m_result m)) as [vs|] eqn:Evs; [|contradiction].
@@ -422,7 +502,7 @@ Qed.
 
 (* Result { a } ; Response(202, Tag("zzz","v")) ; Response(200): names: a = 1, zzz = 2 *)
 Definition tag_method : method :=
-  mkM SEmpty (mkR (SObj [1]) None None) [] []
+  mkM SEmpty [] (mkR (SObj [1]) None None) [] []
       (Some (mkH [] [] [] [] BDefault None [mkRs (Some 2) [] [] BDefault; mkRs None [] [] BDefault] [])).
 Definition tag_design : design :=
   mkD [] [] [] [] [] [mkS [] [] [] [tag_method]] [mkN (KObj [(1, 1)]) None [] []; mkN KPrim None [] []] [0].
@@ -448,7 +528,7 @@ Definition reqmap_graph : graph :=
     mkN (KObj [(2, 5)]) None [3] [];
     mkN KPrim None [] [] ].
 Definition reqmap_design : design :=
-  mkD [] [] [] [] [] [mkS [] [] [] [mkM (SObj [1]) (mkR SEmpty None None) [] [] None]] reqmap_graph [0].
+  mkD [] [] [] [] [] [mkS [] [] [] [mkM (SObj [1]) [] (mkR SEmpty None None) [] [] None]] reqmap_graph [0].
 
 Lemma reqmap_accepted : validate reqmap_design = [].
 Proof. vm_compute. reflexivity. Qed.
@@ -466,22 +546,25 @@ Lemma misplaced_reports e c : f_kind e = KStrict -> allowed e c = false ->
   eval_call c e = [Incompatible (f_name e)].
 Proof. intros Hk Ha. unfold eval_call. rewrite Hk, Ha. reflexivity. Qed.
 
+Lemma bad_dtype_reports e c : f_kind e = KStrict -> allowed e c = true -> dtype_ok e c = false ->
+  eval_call c e = [BadDataType (f_name e)].
+Proof. intros Hk Ha Hd. unfold eval_call. rewrite Hk, Ha, Hd. reflexivity. Qed.
+
 Lemma errors_not_accepted p later : dsl_phase p <> [] -> run_program p later <> Accepted.
 Proof. unfold run_program. destruct (dsl_phase p); [congruence|discriminate]. Qed.
+
+Lemma reported_not_accepted e c p later : eval_call c e <> [] -> In (c, e) p ->
+  run_program p later <> Accepted.
+Proof.
+  intros Hne Hin. apply errors_not_accepted. intro Hnil.
+  assert (H := flat_map_nil _ _ Hnil (c, e) Hin). simpl in H. contradiction.
+Qed.
 
 Lemma misplaced_not_accepted e c p later : f_kind e = KStrict -> allowed e c = false -> In (c, e) p ->
   run_program p later <> Accepted.
 Proof.
-  intros Hk Ha Hin. apply errors_not_accepted. intro Hnil.
-  assert (H := flat_map_nil _ _ Hnil (c, e) Hin). simpl in H. rewrite (misplaced_reports e c Hk Ha) in H. discriminate.
-Qed.
-
-Lemma placed_silent e c : allowed e c = true \/ f_kind e = KSilent \/ f_kind e = KAny -> f_kind e <> KUnknown -> eval_call c e = [].
-Proof.
-  unfold eval_call. intros [Ha|[Hk|Hk]] Hu.
-  - destruct (f_kind e); try reflexivity; [rewrite Ha; reflexivity|congruence].
-  - rewrite Hk. reflexivity.
-  - rewrite Hk. reflexivity.
+  intros Hk Ha Hin. apply (reported_not_accepted e c p later); [|exact Hin].
+  rewrite (misplaced_reports e c Hk Ha). discriminate.
 Qed.
 
 Definition fkind_eqb (a b : fkind) : bool :=
@@ -502,9 +585,15 @@ Qed.
 
 Definition tsubset (a b : list etype) : bool := forallb (fun t => tmem t b) a.
 
+Definition dguard_eq_dec (a b : dguard) : {a = b} + {a <> b}.
+Proof. decide equality. Defined.
+Definition gmem (x : dguard) (l : list dguard) : bool := existsb (fun y => if dguard_eq_dec x y then true else false) l.
+Definition gsubset (a b : list dguard) : bool := forallb (fun x => gmem x b) a.
+
 Definition same_entry (a b : fentry) : bool :=
   String.eqb (f_name a) (f_name b) && fkind_eqb (f_kind a) (f_kind b) && Bool.eqb (f_nested a) (f_nested b) &&
-  tsubset (f_types a) (f_types b) && tsubset (f_types b) (f_types a).
+  tsubset (f_types a) (f_types b) && tsubset (f_types b) (f_types a) &&
+  gsubset (f_dguard a) (f_dguard b) && gsubset (f_dguard b) (f_dguard a).
 
 Fixpoint entries_agree (a b : list fentry) : bool :=
   match a, b with
@@ -534,6 +623,25 @@ Proof.
   split; intros [t [Hin Hm]]; exists t; (split; [exact Hin|]); apply tmem_In; apply tmem_In in Hm; [apply tmem_In, Hab|apply tmem_In, Hba]; exact Hm.
 Qed.
 
+Lemma gmem_In x l : gmem x l = true <-> In x l.
+Proof.
+  unfold gmem. rewrite existsb_exists. split.
+  - intros [y [Hin He]]. destruct (dguard_eq_dec x y); [subst; exact Hin|discriminate].
+  - intro Hin. exists x. split; [exact Hin|]. destruct (dguard_eq_dec x x); [reflexivity|contradiction].
+Qed.
+
+Lemma dtype_ok_ext a b c : gsubset (f_dguard a) (f_dguard b) = true -> gsubset (f_dguard b) (f_dguard a) = true ->
+  dtype_ok a c = dtype_ok b c.
+Proof.
+  intros Hab Hba. unfold gsubset in *. rewrite forallb_forall in Hab, Hba. unfold dtype_ok.
+  destruct (f_dguard a) as [|ga la] eqn:Ea; destruct (f_dguard b) as [|gb lb] eqn:Eb; try reflexivity.
+  - exfalso. assert (H := Hba gb (or_introl eq_refl)). discriminate.
+  - exfalso. assert (H := Hab ga (or_introl eq_refl)). discriminate.
+  - destruct (ctx_dtype c) as [d|]; [|reflexivity]. destruct d; try reflexivity;
+      apply eq_true_iff_eq; rewrite !existsb_exists;
+      (split; intros [gd [Hin Hacc]]; exists gd; (split; [|exact Hacc]); apply gmem_In; [apply Hab|apply Hba]; exact Hin).
+Qed.
+
 (* entry by entry, the extracted function behaves as documented in every context *)
 Lemma entries_agree_calls : forall a b, entries_agree a b = true ->
   forall i ea eb c, nth_error a i = Some ea -> nth_error b i = Some eb ->
@@ -543,8 +651,13 @@ Proof.
   simpl in H. apply andb_true_iff in H. destruct H as [Hxy Hr].
   destruct i as [|i]; simpl in Ha, Hb.
   - inversion Ha; inversion Hb; subst. unfold same_entry in Hxy.
-    repeat (apply andb_true_iff in Hxy; destruct Hxy as [Hxy ?]).
-    apply String.eqb_eq in Hxy. split; [exact Hxy|].
-    unfold eval_call. rewrite (fkind_eqb_eq _ _ H2), Hxy, (allowed_ext ea eb c H0 H). reflexivity.
+    apply andb_true_iff in Hxy. destruct Hxy as [Hxy Hg2].
+    apply andb_true_iff in Hxy. destruct Hxy as [Hxy Hg1].
+    apply andb_true_iff in Hxy. destruct Hxy as [Hxy Ht2].
+    apply andb_true_iff in Hxy. destruct Hxy as [Hxy Ht1].
+    apply andb_true_iff in Hxy. destruct Hxy as [Hxy Hnest].
+    apply andb_true_iff in Hxy. destruct Hxy as [Hname Hkind].
+    apply String.eqb_eq in Hname. split; [exact Hname|].
+    unfold eval_call. rewrite (fkind_eqb_eq _ _ Hkind), Hname, (allowed_ext ea eb c Ht1 Ht2), (dtype_ok_ext ea eb c Hg1 Hg2). reflexivity.
   - exact (IH b Hr i ea eb c Ha Hb).
 Qed.
